@@ -19,7 +19,18 @@ PROPS["C03"] = dict(
                  "SelectionOptions/UseMultiplePaths are process globals: cases run sequentially, 16 shards = 16 option combinations"],
     must_count=["candidate_sets", "arrival_orders", "interleavings", "pairs_observed", "triples_observed", "multipath_sets_with_several_members",
                 "sets_med_comparable", "sets_med_not_comparable", "decided_at_med", "decided_at_age-routerid", "decided_at_neighbor-addr",
-                "palette_confed+ibgp", "getchanges_streams_checked"],
+                "palette_confed+ibgp", "getchanges_streams_checked",
+                # unit "e2e" (daemon level: sessions of every kind, with and without configured peer-as, ListPath best + passive observer)
+                "e2e:c03:scenarios", "e2e:c03:nontrivial_scenarios", "e2e:c03:candidate_sets", "e2e:c03:rib_best_checked", "e2e:c03:observer_best_checked", "e2e:c03:confederation",
+                "e2e:c03:options:always-compare-med=true", "e2e:c03:options:always-compare-med=false", "e2e:c03:options:ignore-as-path-length=true",
+                "e2e:c03:options:external-compare-router-id=true", "e2e:c03:options:external-compare-router-id=false",
+                "e2e:c03:med-regime:same-neighbor-as", "e2e:c03:med-regime:distinct-neighbor-as", "e2e:c03:med-regime:equal-med", "e2e:c03:med-regime:free",
+                "e2e:c03:decided_at_local-pref", "e2e:c03:decided_at_local-origin", "e2e:c03:decided_at_as-path-len", "e2e:c03:decided_at_origin", "e2e:c03:decided_at_med",
+                "e2e:c03:decided_at_ebgp-over-ibgp", "e2e:c03:decided_at_age-routerid", "e2e:c03:decided_at_neighbor-addr",
+                "e2e:c03:candidate-kind:local", "e2e:c03:candidate-kind:ebgp", "e2e:c03:candidate-kind:ibgp", "e2e:c03:candidate-kind:confed",
+                "e2e:c03:candidate-kind:ebgp/peer-as-unset", "e2e:c03:candidate-kind:ibgp/peer-as-unset"],
     units=[dict(name="table", harness="t_table", files=["common_", "c03_"], run="TestVerifC03",
-                shards=dict(quick=16, thorough=16), timeout_s=dict(quick=600, thorough=5400))],
+                shards=dict(quick=16, thorough=16), timeout_s=dict(quick=600, thorough=5400)),
+           dict(name="e2e", harness="t_server", files=["sim_", "e2e_"], run="TestVerifE2E_C03",
+                shards=dict(quick=16, thorough=16), timeout_s=dict(quick=900, thorough=5400))],
 )
